@@ -361,6 +361,81 @@ func verifC13(c *drv.Ctx) {
 	}
 	rec(nil)
 	c.Set("cases", idx)
+	// long pair lists (several times a line reader's buffer) with fixed-width lines, bad addresses of the same
+	// width as the good ones in a periodic pattern, every line with a port of its own: each good line is
+	// probed with ITS address and port, each bad line is reported and probed by nobody (a reader that keeps
+	// references into its buffer across a refill mixes lines up only at certain offsets)
+	for _, cmd := range []struct {
+		name string
+		args []string
+		app  bool
+	}{{"socks", []string{"socks"}, true}, {"tcp-syn", []string{"tcp", "syn"}, false}} {
+		for _, period := range []int{2, 3, 5, 7} {
+			for _, pad := range []int{0, 1, 3} {
+				idx++
+				if !c.Mine(idx) || c.Expired() {
+					continue
+				}
+				const total = 700
+				var sb strings.Builder
+				want := map[string]int{}
+				nbad := 0
+				for i := 1; i <= total; i++ {
+					addr := fmt.Sprintf("10.0.0.%d", 1+i%9)
+					if i%period == period-1 {
+						addr = "10.0.0.x"
+						nbad++
+					} else {
+						want[fmt.Sprintf("%s:%d", addr, 1000+i)]++
+					}
+					fmt.Fprintf(&sb, "{\"ip\":\"%s\",%s\"port\":%d}\n", addr, strings.Repeat(" ", pad), 1000+i)
+				}
+				stdin := ""
+				if !cmd.app {
+					stdin = vGatewayCache
+				}
+				sc := &vE2ESpec{Args: append(append([]string{}, cmd.args...), "--json", "-f", "{DIR}/long.jsonl"), Files: map[string]string{"long.jsonl": sb.String()}, Stdin: stdin, Horizon: 30000000, Positive: func(string, uint16) bool { return false }}
+				r, x := vE2EOnce(sc)
+				c.Eval(1)
+				c.Nontrivial(1)
+				c.R.Transitions += int64(x.Steps)
+				name := fmt.Sprintf("%s -f <%d fixed-width lines of %d bytes, every %d-th address is 10.0.0.x>", cmd.name, total, 30+pad, period)
+				key := fmt.Sprintf("long-file:%s:period=%d:pad=%d", cmd.name, period, pad)
+				rep := map[string]any{"part": "c13", "args": sc.Args, "period": period, "pad": pad}
+				if _, err := vBasic(x); err != nil {
+					c.Fail(key+":crash", name+": "+err.Error(), rep)
+					continue
+				}
+				got := map[string]int{}
+				if cmd.app {
+					for _, p := range r.Probes {
+						got[fmt.Sprintf("%s:%d", p.IP, p.Port)]++
+					}
+				} else {
+					for _, f := range r.Frames {
+						p := zzref.RefReadProbe(f.Data, false)
+						if p.OK {
+							got[fmt.Sprintf("%s:%d", zzref.RefIPString(p.DstIP), p.DstPort)]++
+						} else {
+							got["malformed"]++
+						}
+					}
+				}
+				if d := c08diff(got, want); d != "" {
+					if len(d) > 600 {
+						d = d[:600] + " ..."
+					}
+					c.Fail(key+":probes", fmt.Sprintf("%s: the probes differ from the good lines: %s", name, d), rep)
+					continue
+				}
+				if n := len(r.vErrRecords()); n != nbad {
+					c.Fail(key+":errors", fmt.Sprintf("%s: %d lines have an unparseable address, %d error records were written", name, nbad, n), rep)
+					continue
+				}
+				c.Outcome(fmt.Sprintf("long-file:%d/%d", len(got), nbad))
+			}
+		}
+	}
 	// many failing requests in quick succession: every one of them is reported (an error stream that
 	// thins itself out under load loses the account of what was not scanned)
 	for _, cmd := range []struct {
